@@ -52,6 +52,25 @@ SVH_CMD(cstats) {
             print_coords(out, c.coords_of_detector(nd - 1));
             out << "\n";
         }
+        // sparse multi-index queries (the helper skips whole iterations of REPEAT blocks between wanted indices)
+        uint64_t state = (uint64_t)req.iarg(1, 12345) * 6364136223846793005ULL + 1442695040888963407ULL;
+        for (int round = 0; round < 6 && nd > 1; round++) {
+            std::set<uint64_t> want;
+            uint64_t density = 2 + (uint64_t)round * 2;
+            for (uint64_t k = 0; k < nd; k++) {
+                state = state * 6364136223846793005ULL + 1442695040888963407ULL;
+                if ((state >> 33) % density == 0) want.insert(k);
+            }
+            if (want.empty()) want.insert(nd - 1);
+            for (const auto &kv : c.get_detector_coordinates(want)) {
+                out << "dsub " << round << " " << kv.first << " ";
+                print_coords(out, kv.second);
+                out << "\n";
+            }
+            out << "dsubq " << round;
+            for (auto k : want) out << " " << k;
+            out << "\n";
+        }
     }
 }
 
